@@ -117,6 +117,8 @@ func main() {
 		explore(args)
 	case "run":
 		run(args)
+	case "show":
+		show(os.Args[2:])
 	case "explorejson":
 		r := common.NewRng(uint64(common.Atoi(args["--seed"], 1)))
 		n := common.Atoi(args["--n"], 1000)
@@ -187,6 +189,8 @@ func run(args map[string]string) {
 	nprobe := common.Atoi(args["--nprobe"], 1000)
 	ndoc := common.Atoi(args["--ndoc"], 200)
 	njson := common.Atoi(args["--njson"], 200)
+	nwhole := common.Atoi(args["--nwhole"], 200)
+	nstream := common.Atoi(args["--nstream"], 20)
 	out := common.NewOut(args["--out"])
 	defer out.Close()
 	dist := map[string]int{}
@@ -255,6 +259,36 @@ func run(args map[string]string) {
 		text := sb.String()
 		jobs = append(jobs, func(ctx *cue.Context) [][2]string {
 			c, im := jsonCase(ctx, text)
+			return [][2]string{{c, im}}
+		})
+	}
+	// whole documents (depth <= 5) and document streams, tied to Yaml/Doc.v
+	rw := common.NewRng(seed ^ 0x57484f4c45)
+	for i := 0; i < nwhole; i++ {
+		t := genWTree(rw, 1+rw.Intn(5), dist)
+		lm := rw.Bool()
+		dist[fmt.Sprintf("wdepth/%d", depthOf(t))]++
+		jobs = append(jobs, func(ctx *cue.Context) [][2]string {
+			c, im, ok := wholeCase(ctx, t, lm)
+			if !ok {
+				return nil
+			}
+			return [][2]string{{c, im}}
+		})
+	}
+	for i := 0; i < nstream; i++ {
+		docs := &T{K: 'L'}
+		n := 1 + rw.Intn(4)
+		for j := 0; j < n; j++ {
+			docs.Kids = append(docs.Kids, genWTree(rw, rw.Intn(4), dist))
+		}
+		lm := rw.Bool()
+		dist[fmt.Sprintf("wstream/docs%d", n)]++
+		jobs = append(jobs, func(ctx *cue.Context) [][2]string {
+			c, im, ok := streamCase(ctx, docs, lm)
+			if !ok {
+				return nil
+			}
 			return [][2]string{{c, im}}
 		})
 	}
@@ -328,5 +362,20 @@ func replayCase(ctx *cue.Context, out *common.Out, line string) {
 	case "J":
 		c, im := jsonCase(ctx, common.Unhex(w[1]))
 		out.Emit(c, im)
+	case "W", "Z":
+		t, err := parseW(w[2])
+		if err != nil {
+			panic(err)
+		}
+		var c, im string
+		var ok bool
+		if w[0] == "W" {
+			c, im, ok = wholeCase(ctx, t, w[1] == "lm=1")
+		} else {
+			c, im, ok = streamCase(ctx, t, w[1] == "lm=1")
+		}
+		if ok {
+			out.Emit(c, im)
+		}
 	}
 }
